@@ -102,6 +102,16 @@ def obligations(prog, src, tier, seed):
                 "doc": "every address carries the port of the request URI, addresses and order unchanged", "run": run_setp, "check": check_setp, "loop_bound": 8, "crosscheck": False,
                 "cex_extract": lambda p, m: {"family": "sort_preferred", "families": "".join("6" if f else "4" for f in p.ctx.fams), "prefer": "none", "port": "8080"}, "judge": judge_sort})
 
+    def judge_bind(scn, out):
+        # natively: TcpTransport::connect_to_addrs over two loopback listeners; which family was attempted first
+        want = "4" if (scn.get("bound4") == "1" and scn.get("bound6") != "1") else "6"
+        if "input_error" in out:
+            return None
+        firsts = [out.get("first_a"), out.get("first_b")]
+        if any(f is None or str(f).startswith("err") for f in firsts):
+            return False
+        return any(f != want for f in firsts)
+
     def run_bind(ctx):
         h4 = ctx.choose([(True, False), (True, True)], "v4 bound")
         h6 = ctx.choose([(True, False), (True, True)], "v6 bound")
@@ -117,5 +127,7 @@ def obligations(prog, src, tier, seed):
         return [("IPv4 is preferred only when an IPv4 and no IPv6 local address is bound", r.variant == "Some" and r.f[0].variant == want)]
 
     obs.append({"name": "c16_preference_from_binding", "family": "from_binding", "funcs": ["client::conn::dns::IpVersion::from_binding"], "bound": "all four bound-address combinations",
-                "doc": "IPv6 unless only an IPv4 local address is bound", "run": run_bind, "check": check_bind, "crosscheck": False})
+                "doc": "IPv6 unless only an IPv4 local address is bound", "run": run_bind, "check": check_bind, "crosscheck": False,
+                "cex_extract": lambda p, m: {"family": "binding_pref", "bound4": "1" if p.ctx.h4 else "0", "bound6": "1" if p.ctx.h6 else "0"},
+                "judge": judge_bind})
     return obs
